@@ -70,7 +70,9 @@ static void apply_mask(assemblyline_t al, int m, int grouped) {
  *   via & 3 : 0 string entry points, 1 file entry points (a thread-private file), 2 the deprecated aliases
  *   via & 4 : options through asm_set_all / asm_sib where they can express the configuration
  *   via & 8 : debug output on during the call (stdout is /dev/null)
- *   via & 16: afterwards asm_create_bin_file to a thread-private path, read back and compared with the code */
+ *   via & 16: afterwards asm_create_bin_file to a thread-private path, read back and compared with the code
+ *   via & 32: the program in two calls split at a line boundary (string entry point, plain / fitting mode)
+ *   via & 64: a second live instance of the same thread with other options and another program */
 static const char *tdir; /* THREADS_DIR: where the thread-private files live; unset = string entry points only */
 static int big_ext_only; /* THREADS_BIG_EXT_ONLY: long programs run on caller buffers only (ThreadSanitizer does not follow mremap) */
 #pragma GCC diagnostic ignored "-Wdeprecated-declarations"
@@ -81,10 +83,25 @@ static void one(int p, int m, int mode, int internal, uint8_t *buf,
     via &= ~(3 | 16);
   if ((via & 3) == 3)
     via &= ~1;
+  /* via & 64: a SECOND live instance of this thread (other options, another program) is created first, used while the main one
+   * exists, and checked against its own reference */
+  assemblyline_t al2 = NULL;
+  int p2 = (p + 1) % nprog, m2 = (m + 5) % NMASK, comp_bad = 0;
+  if ((via & 64) && !(big_ext_only && strlen(prog[p2]) > 8000)) {
+    al2 = asm_create_instance(NULL, 0);
+    apply_mask(al2, m2, 0);
+  }
   assemblyline_t al = asm_create_instance(internal ? NULL : buf, BUFSZ);
   if (yields && (rand_r(rs) & 3) == 0)
     sched_yield();
   apply_mask(al, m, via & 4);
+  if (al2) {
+    int rc2 = asm_assemble_str(al2, prog[p2]);
+    int off2 = asm_get_offset(al2);
+    struct ref *w2 = &REF[RIDX(p2, m2, 0, 1)];
+    uint64_t h2 = (rc2 == 0 && off2 >= 0) ? fnv(asm_get_code(al2), off2) : 0;
+    comp_bad = rc2 != w2->rc || off2 != w2->off || h2 != w2->hash;
+  }
   if (via & 8)
     asm_set_debug(al, true);
   if (mode == 1)
@@ -108,6 +125,17 @@ static void one(int p, int m, int mode, int internal, uint8_t *buf,
     char *copy = strdup(prog[p]);
     rc = (via & 3) == 2 ? assemble_string_counting_chunks(al, copy, 8, &count)
                         : asm_assemble_string_counting_chunks(al, copy, 8, &count);
+    free(copy);
+  } else if ((via & 32) && (via & 3) == 0 && strchr(prog[p], '\n')) {
+    /* via & 32: the program in TWO calls, split at a line boundary near the middle (plain and fitting mode: the same code) */
+    char *copy = strdup(prog[p]);
+    char *cut = strchr(copy + strlen(copy) / 2, '\n');
+    if (!cut)
+      cut = strchr(copy, '\n');
+    *cut = 0;
+    rc = asm_assemble_str(al, copy);
+    if (rc == 0)
+      rc = asm_assemble_str(al, cut + 1);
     free(copy);
   } else
     rc = (via & 3) == 2 ? assemble_str(al, prog[p]) : asm_assemble_str(al, prog[p]);
@@ -138,6 +166,16 @@ static void one(int p, int m, int mode, int internal, uint8_t *buf,
   if (yields && (rand_r(rs) & 3) == 0)
     sched_yield();
   asm_destroy_instance(al);
+  if (al2) {
+    /* the companion must still hold its code after the main instance has worked and gone */
+    struct ref *w2 = &REF[RIDX(p2, m2, 0, 1)];
+    int off2 = asm_get_offset(al2);
+    if (w2->rc == 0 && (off2 != w2->off || fnv(asm_get_code(al2), off2) != w2->hash))
+      comp_bad = 1;
+    asm_destroy_instance(al2);
+    if (comp_bad)
+      out->rc = 2000;
+  }
 }
 
 static pthread_barrier_t bar;
@@ -161,7 +199,7 @@ static void *worker(void *arg) {
     int internal = (rand_r(&rs) & 3) == 0;
     if (big_ext_only && strlen(prog[p]) > 8000)
       internal = 0;
-    int via = (rand_r(&rs) >> 3) & 31;
+    int via = (rand_r(&rs) >> 3) & 127;
     if ((rand_r(&rs) & 3) != 0)
       via &= ~8; /* debug output is slow: one call in eight */
     struct ref got;
@@ -221,7 +259,7 @@ static void *cold_worker(void *arg) {
   long mm = 0, n = 0;
   for (int it = 0; it < 3; it++) {
     struct ref got;
-    int via = (rand_r(&rs) >> 3) & 23; /* no debug output here: the first library call is what matters */
+    int via = (rand_r(&rs) >> 3) & (23 | 32 | 64); /* no debug output here: the first library call is what matters */
     int cin = it == 1 && !(big_ext_only && strlen(prog[p]) > 8000);
     one(p, m, mode, cin, buf, &got, &rs, 0, via, id);
     struct ref *w = &REF[RIDX(p, m, mode, cin)];
